@@ -42,7 +42,7 @@ def eval_zone(case):
         for t in tl.transitions:
             for d in deltas:
                 us.add(t + d)
-        lo, hi = -2 ** 31 + 86400 * 2, 2 ** 31 - 86400 * 2
+        lo, hi = -2 ** 31 + 86400 * 2, 2 ** 31 + 86400 * 2      # includes the day after a final transition at 2^31-1
         us = sorted(u for u in us if lo <= u <= hi)
         images = {}
         for u in us:
